@@ -32,13 +32,21 @@ def main():
 
     out = []
     models = {}
+    reuse_pool = {}
     for act in job["actions"]:
         kind = act[0]
         if kind == "fit":
             b = act[1]
             with contextlib.redirect_stdout(io.StringIO()):
                 data = zoo.build_baseline(b)
-                m = zoo.new_model(b)
+                pkey = (b["family"], b["profile"])
+                if len(act) > 3 and act[3] and pkey in reuse_pool:
+                    m = reuse_pool[pkey]  # the same object is fitted again; it no longer is the earlier meter's model
+                    for k in [k for k, v in models.items() if v[0] is m]:
+                        del models[k]
+                else:
+                    m = zoo.new_model(b)
+                reuse_pool[pkey] = m
                 if b["family"] == "caltrack":
                     m.fit(data)
                 else:
